@@ -13,6 +13,7 @@ import Driver.C17
 import Driver.C16
 import Driver.C20
 import Driver.C11
+import Driver.C11x
 import Driver.C15
 import Driver.C09
 import Driver.C06
@@ -47,7 +48,8 @@ def dispatch (line : String) : String :=
       else if op = "prog" ∨ op = "prog.v" then Driver.C17.handle op args
       else if op.startsWith "cmp." || op.startsWith "eq." || op.startsWith "assertc." then Driver.C16.handle op args
       else if op.startsWith "cstr." || op.startsWith "cat." then Driver.C20.handle op args
-      else if op.startsWith "arr." then Driver.C11.handle (op.drop 4).toString args
+      else if op.startsWith "arr." then
+        (Driver.C11x.handle (op.drop 4).toString args).orElse fun _ => Driver.C11.handle (op.drop 4).toString args
       else if op = "bld.hist" then Driver.C11.handleBld args
       else if op.startsWith "cons." then Driver.C15.handle "cons" (op.drop 5).toString args
       else if op.startsWith "led." then Driver.C15.handle "led" (op.drop 4).toString args
